@@ -23,7 +23,7 @@ ASSUMPTIONS = ["the generator's spec is what the headers state (cross-checked by
 
 @st.composite
 def cases(draw, tier="quick"):
-    spec = draw(plotgen.plot_specs(thin=True, many=True, max_levels=4, max_cells=1500 if tier == "quick" else 6000, max_fields=6,
+    spec = draw(plotgen.plot_specs(thin=True, many=True, level_prefix=True, max_levels=4, max_cells=1500 if tier == "quick" else 6000, max_fields=6,
                                    payload_kinds=("coded", "random", "special")))
     if spec["mesh"]["nlev"] == 4:
         spec["mesh"]["nb0"] = [min(n, 2) for n in spec["mesh"]["nb0"]]
@@ -119,8 +119,8 @@ def _check_levels(pck, plot, offsets, L, maxmins, v, tag):
             if os.path.basename(pck.cells[l]["files"][b]) != f"Cell_D_{lev['files'][b]:05d}":
                 v.append(f"{tag}: level {l} box {b} file {pck.cells[l]['files'][b]} != Cell_D_{lev['files'][b]:05d}")
                 break
-            if os.path.realpath(os.path.dirname(pck.cells[l]["files"][b])) != os.path.realpath(f"src/Level_{l}"):
-                v.append(f"{tag}: level {l} box {b} file path {pck.cells[l]['files'][b]} not under Level_{l}")
+            if os.path.realpath(os.path.dirname(pck.cells[l]["files"][b])) != os.path.realpath(os.path.join("src", plot.level_dir(l))):
+                v.append(f"{tag}: level {l} box {b} file path {pck.cells[l]['files'][b]} not under {plot.level_dir(l)}")
                 break
             if int(pck.cells[l]["offsets"][b]) != offsets[l][b]:
                 v.append(f"{tag}: level {l} box {b} offset {pck.cells[l]['offsets'][b]} != {offsets[l][b]}")
